@@ -62,6 +62,10 @@ def start(vkind, n, cplx, Qe, seed):
         return rnd(n), n
     if vkind == "randtiny":
         return rnd(n) * 2.0**-45, n
+    if vkind == "lowp":  # a start vector in a narrower dtype than the operator: the decomposition is computed in the promoted dtype
+        return rnd(n).astype(np.complex64 if cplx else np.float32), n
+    if vkind == "intvec":
+        return P.ints(g, (n, ), -3, 3, nonzero=True).astype(np.int64), n
     if vkind == "batch":
         return rnd(n, 2), n
     if vkind == "batchmix":  # an eigenvector next to a random vector: the two columns exhaust their Krylov spaces at different steps
@@ -101,7 +105,7 @@ def check_one(M, v, Qd, Td, j, m, tol, d_inv, lam, fam, bad, normA, check_first=
         bad("Q-not-orthonormal", {"err": float(np.max(np.abs(G - np.eye(j)))), "columns": j})
         return
     if check_first and v is not None:
-        q0 = v / np.linalg.norm(v)
+        q0 = v.astype(np.complex128) / np.linalg.norm(v.astype(np.complex128))
         if np.linalg.norm(Qd[:, 0] - q0) > 1e-10:
             bad("first-column-is-not-v/|v|", {"err": float(np.linalg.norm(Qd[:, 0] - q0))})
     if np.max(np.abs(Td.imag), initial=0.0) > 1e-10 * normA:
@@ -234,8 +238,8 @@ def cases(tier, seed):
                 continue
             ms = list(range(1, n + 4)) if n <= 6 else sorted({1, 2, 5, n - 1, n, n + 5, 1000})
             for cplx in (False, True):
-                for vk in ("rand", "eig1", "eig2", "eig3", "batch", "batchmix", "default", "randtiny"):
-                    if (fam in ("tiny", "huge") and vk not in ("rand", "eig2", "batch", "default")) or (vk == "randtiny" and fam not in ("definite", "indefinite")):
+                for vk in ("rand", "eig1", "eig2", "eig3", "batch", "batchmix", "default", "randtiny", "lowp", "intvec"):
+                    if (fam in ("tiny", "huge") and vk not in ("rand", "eig2", "batch", "default")) or (vk in ("randtiny", "lowp", "intvec") and fam not in ("definite", "indefinite")):
                         continue
                     if fam in ("Identity", "ScalarMul") and vk in ("eig2", "eig3", "batchmix"):
                         continue
@@ -261,7 +265,7 @@ def case_signature(case):
 def describe(tier, seed):
     return {
         "bound": "Hermitian operators {definite, indefinite, repeated (3 distinct values), clustered (gap 1e-6), definite at scale 2^-45, indefinite at scale 2^40} real / complex and Identity / ScalarMul / "
-                 "Diagonal operators, n in " + str(_DESC.get("sizes")) + "; start vectors {random, random at scale 2^-45, eigenvector, sum of 2 / 3 eigenvectors, 2-column "
+                 "Diagonal operators, n in " + str(_DESC.get("sizes")) + "; start vectors {random, random at scale 2^-45, float32 / complex64, integer, eigenvector, sum of 2 / 3 eigenvectors, 2-column "
                  "batch, default keyed}; every max_iters in 1..n+3 (n<=6) / {1,2,5,n-1,n,n+5,1000}; tol in {1e-12, 1e-7, 1e-3}; entry points lanczos, "
                  "lanczos_eigs, Lanczos()(A)",
         "alphabet": _DESC,
